@@ -13,9 +13,9 @@ DigitStrings(n) == IF n = 0 THEN {<<>>} ELSE LET R == DigitStrings(n - 1) IN R \
 IntTexts == {s \in DigitStrings(MaxDigits) : s # <<>>}
               \cup {<<sg>> \o s : sg \in {MINUS, PLUS}, s \in {q \in DigitStrings(MaxDigits - 1) : q # <<>>}}
 FloatTexts == {[neg |-> n, int |-> i, frac |-> f, eneg |-> en, exp |-> e] :
-                 n \in BOOLEAN, i \in {<<0>>, <<1>>, <<1, 2>>, <<9, 9, 9>>}, f \in {<<>>, <<5>>, <<0, 1>>, <<2, 5, 0>>},
+                 n \in BOOLEAN, i \in {<<>>, <<0>>, <<1>>, <<1, 2>>, <<9, 9, 9>>}, f \in {<<>>, <<5>>, <<0, 1>>, <<2, 5, 0>>},
                  en \in BOOLEAN, e \in {<<>>, <<0>>, <<3>>, <<1, 0>>, <<3, 0, 0>>}}
-Items == CASE Mode = "format" -> Family(Ks) [] Mode = "parse" -> IntTexts [] OTHER -> {ft \in FloatTexts : ~(ft.eneg /\ ft.exp = <<>>)}
+Items == CASE Mode = "format" -> Family(Ks) [] Mode = "parse" -> IntTexts [] OTHER -> {ft \in FloatTexts : ~(ft.eneg /\ ft.exp = <<>>) /\ ~(ft.int = <<>> /\ ft.frac = <<>>)}
 
 Init == batch = <<>>
 Add(x) == Len(batch) < MaxBatch /\ batch' = Append(batch, x)
